@@ -74,6 +74,8 @@ def spellings(value):
     for t in texts:
         out.append((f'str {t!r}', t, 'n:' + w_text(t)))
     out.append((f'Text {texts[0]!r}', ft.Text(texts[0]), 'x:' + w_text(texts[0])))
+    padded = f' {texts[0]} '
+    out.append((f'Text {padded!r}', ft.Text(padded), 'x:' + w_text(padded)))
     if q == 1:
         out += [('True', True, 'n:B:1'), ('Boolean(True)', ft.Boolean(True), 'x:B:1'), ('"TRUE"', 'TRUE', 'n:' + w_text('TRUE'))]
     if q == 0:
@@ -182,9 +184,16 @@ def run(ctx):
                 for label, obj, w in spellings(v):
                     args = list(base)
                     args[i] = obj
+                    before = repr(obj.value) if isinstance(obj, ft.ExcelType) else None
                     got = call_real(f, *args, *extra)
                     res.evaluations += 1
                     res.count('fn:' + name)
+                    if before is not None and repr(obj.value) != before:
+                        # "the same result for every spelling" includes the NEXT use of the same object: a cell value
+                        # is one object for every reference within a formula
+                        res.violations.append({'what': f'{name}: converting an argument changed the argument object itself',
+                                               'input': {'fn': name, 'position': i, 'spelling': label},
+                                               'expected': before, 'got': repr(obj.value)})
                     kind = label.split(' ')[0]
                     res.nontrivial.add((name, i, kind, str(v)))
                     inp = {'fn': name, 'position': i, 'value': str(v), 'spelling': label, 'route': 'direct'}
@@ -221,6 +230,37 @@ def run(ctx):
                     else:
                         res.violations.append({'what': f'{name}: date-like / Python-only numeral accepted as a number',
                                                'input': inp, 'expected': 'E:VALUE', 'got': got})
+
+    # ---- (1a') one cell used TWICE in one formula, once as a number and once as a text, in both orders: each use
+    # converts on its own ("3"+1 = 4 and & converts to text), the cell's text is what it is
+    for t in [' 42 ', '42 ', ' 42', '+42', '042', '4.20', '1e2', ' 7', 'TRUE', '-3 ', '.5', '5.']:
+        try:
+            num = float(t) if t.strip().lower() not in ('true', 'false') else 1.0
+        except ValueError:
+            continue
+        for form, want in ((f'=(A1+1)&"|"&A1', None), ('=A1&"|"&(A1+1)', None), ('=A1*0+LEN(A1)', f'I:{len(t)}'),
+                           ('=LEN(A1)+A1*0', f'I:{len(t)}'), ('=ABS(A1)*0+LEN(A1&"")', f'I:{len(t)}'),
+                           ('=IF(A1+0>-1000,LEN(A1),0)', f'I:{len(t)}'), ('=SUM(A1,1)*0+LEN(A1)', f'I:{len(t)}'),
+                           ('=EXACT(A1,A1&"")', 'B:1'), ('=(A1+1)*0+(A1=A1&"")', 'I:1')):
+            def go(form=form):
+                m = ModelCompiler().read_and_parse_dict({'Sheet1!A1': t, 'Sheet1!B1': form, 'Sheet1!B2': '=A1+1'})
+                e = Evaluator(m)
+                return e.evaluate('Sheet1!B1'), e.evaluate('Sheet1!B2')
+            try:
+                v1, v2 = go()
+                got = common.canon(v1)
+                plus1 = str(v2)
+            except Exception as exc:  # noqa: BLE001
+                got, plus1 = 'X:' + type(exc).__name__, '?'
+            if want is None:
+                want = w_text(plus1 + '|' + t) if form.startswith('=(A1+1)') else w_text(t + '|' + plus1)
+            res.evaluations += 1
+            res.count('double-use')
+            res.nontrivial.add(('double-use', t, form))
+            if not same_value(got, want):
+                res.violations.append({'what': 'a cell used twice in one formula (as a number and as a text) is not converted '
+                                               'independently at each use',
+                                       'input': {'A1': t, 'formula': form}, 'expected': want, 'got': got})
 
     # ---- (1b) the same through formulas for one-argument numeric functions and text literals
     one_arg = [n for n in fnames if hasattr(xl.FUNCTIONS[n], '__wrapped__')
@@ -381,6 +421,37 @@ def run(ctx):
             res.violations.append({'what': 'an evaluator created before the registration sees the new function '
                                            '(its namespace is not a copy)', 'input': {'register': 'ADDONE'},
                                    'expected': 'not in namespace', 'got': 'in namespace'})
+        # the SECOND registration under a name that is taken (a redefinition by the user, also of a built-in, also
+        # under an explicit name): evaluators created afterwards see the latest one, earlier evaluators keep theirs
+        @xl.register()
+        @xl.validate_args
+        def ADDONE(x: ft.XlNumber) -> ft.XlNumber:  # noqa: F811
+            return x + 10
+        again = Evaluator(model)
+        orig_sign = xl.FUNCTIONS.get('SIGN')
+        try:
+            @xl.register('SIGN')
+            @xl.validate_args
+            def my_sign(x: ft.XlNumber) -> ft.XlNumber:
+                return x * 100
+            m2 = ModelCompiler().read_and_parse_dict({'Sheet1!A1': '=SIGN("-3")', 'Sheet1!A2': '=_xlfn.sign(TRUE)'})
+            e2 = Evaluator(m2)
+            got = [call_real(again.evaluate, 'Sheet1!A1'), call_real(again.evaluate, 'Sheet1!A2'),
+                   call_real(after.evaluate, 'Sheet1!A1'), call_real(e2.evaluate, 'Sheet1!A1'), call_real(e2.evaluate, 'Sheet1!A2')]
+            want = ['I:11', 'I:11', 'I:2', 'I:-300', 'I:100']
+            res.evaluations += 1
+            res.count('re-registration')
+            res.nontrivial.add(('re-registration',))
+            if not all(same_value(g, w) for g, w in zip(got, want)):
+                res.violations.append({'what': 'a function registered AGAIN under a taken name (user redefinition / built-in name) '
+                                               'is not the one evaluators created afterwards use, or an earlier evaluator changed',
+                                       'input': {'register': ['ADDONE := x+1', 'ADDONE := x+10', "register('SIGN') := x*100"],
+                                                 'probes': ['again: =ADDONE("1")', 'again: =addone(TRUE)', 'earlier evaluator: =ADDONE("1")',
+                                                            'new: =SIGN("-3")', 'new: =_xlfn.sign(TRUE)']},
+                                       'expected': want, 'got': got})
+        finally:
+            if orig_sign is not None:
+                xl.FUNCTIONS['SIGN'] = orig_sign
     finally:
         xl.FUNCTIONS.pop('ADDONE', None)
     if res.drift:
